@@ -18,6 +18,7 @@ warnings.filterwarnings('ignore')
 
 STM = 'src/pharmpy/model/statements.py:'
 NPROC = 16
+ALSO_CAP = 300   # length of the `also` lists (every failing case of a clause, tools/BOUNDED_GUIDE.md)
 
 # --------------------------------------------------------------------------------------------------
 # lazy pharmpy access (workers import once)
@@ -684,6 +685,7 @@ def _df_worker(task):
     root = _tup(root)
     cases = nontrivial = 0
     fails = {}
+    also = {}
     samples = []
 
     def run(prog):
@@ -700,6 +702,9 @@ def _df_worker(task):
             cand = (_prog_size(prog), _show(prog), detail, prog)
             if old is None or cand[:2] < old[:2]:
                 fails[key] = cand
+            lst = also.setdefault(key, [])
+            if len(lst) < ALSO_CAP:
+                lst.append(prog)
 
     if fam.get('ode'):
         pre_stmts, post_stmts = _ode_programs(fam)
@@ -715,7 +720,7 @@ def _df_worker(task):
     else:
         for prog in _subtree(root, fam):
             run(prog)
-    return cases, nontrivial, fails, samples
+    return cases, nontrivial, fails, samples, also
 
 
 def _families(tier):
@@ -796,7 +801,10 @@ def bounded_dataflow(tier):
     fails = {}
     samples = []
     per_family = {}
-    for (fam, _root), (c, nt, fl, sm) in zip(tasks, results):
+    also = {}
+    for (fam, _root), (c, nt, fl, sm, al) in zip(tasks, results):
+        for key, progs in al.items():       # tasks and the programs of a task are in enumeration order
+            also.setdefault(key, []).extend(progs[:ALSO_CAP - len(also.get(key, []))])
         cases += c
         nontrivial += nt
         per_family[fam['name']] = per_family.get(fam['name'], 0) + c
@@ -807,11 +815,15 @@ def bounded_dataflow(tier):
             if old is None or cand[:2] < old[:2]:
                 fails[key] = cand
     out_fails = []
+    def as_case(prog, fid, clause):
+        return {'prog': [list(s) if _is_ode(s) else [s[0], list(s[1])] for s in prog], 'fid': fid, 'clause': clause}
+
     for (fid, clause), (_n, _s, detail, prog) in sorted(fails.items()):
         out_fails.append({'fid': fid, 'clause': clause, 'detail': detail,
-                          'case': {'prog': [list(s) if _is_ode(s) else [s[0], list(s[1])] for s in prog],
-                                   'fid': fid, 'clause': clause},
-                          'replay_fn': 'bounded_dataflow_replay'})
+                          'case': as_case(prog, fid, clause),
+                          'replay_fn': 'bounded_dataflow_replay',
+                          # every failing program of the clause (tools/BOUNDED_GUIDE.md, `also`)
+                          'also': [as_case(q, fid, clause) for q in also.get((fid, clause), [])[:ALSO_CAP]]})
     bound = ' | '.join(f"{f['name']} ({per_family.get(f['name'], 0)} programs): {f['bound']}" for f in fams)
     return {'cases': cases, 'nontrivial': nontrivial, 'bound': bound, 'samples': samples, 'fails': out_fails}
 
@@ -857,6 +869,10 @@ CC_TOCS_ERR = 'to_compartmental_system raises no internal error on the equations
 CC_DICT = 'from_dict(to_dict(cs)) has the same compartments, flows, doses, inputs, lag times and bioavailabilities and equals cs'
 CC_SUBS_RATE = 'subs of the rate symbols substitutes in every flow and keeps doses, inputs, lag times and bioavailabilities'
 CC_SUBS_COMP = 'subs of dose/input/lag/bioavailability symbols substitutes in the compartments and keeps every flow'
+CC_SUBS_EXPR = ('subs with amount functions or compound expressions as keys substitutes them in every flow: '
+                'new.get_flow(a, b) == old.get_flow(a, b).subs(m) for every pair of compartments and the output')
+CC_SUBS_EXPR_COMP = ('subs with amount functions or compound expressions as keys substitutes amount, doses, input, lag '
+                     'time and bioavailability of every compartment and keeps the compartment names and their number')
 CC_BUILD = 'the builder produces exactly the compartments, flows, doses, inputs, lag times and bioavailabilities that were added'
 CC_ORDER_EQ = 'two systems built from the same parts in different insertion orders are equal'
 CC_ORDER_HASH = 'two systems built from the same parts in different insertion orders have equal hashes'
@@ -985,6 +1001,12 @@ def _amt(nm):
     return _px()['Expr'].function(f'A_{nm}', 't')
 
 
+def _ramt(ref, nm):
+    """amount function of a compartment in the reference model (A_<name>(t) unless the model says otherwise)"""
+    a = ref.get('amounts', {}).get(nm)
+    return _amt(nm) if a is None else a
+
+
 def _is_zero(e):
     Expr = _px()['Expr']
     e = Expr(e).expand()
@@ -999,11 +1021,11 @@ def _ref_rhs(ref, nm):
     e = Expr(ref['comps'][nm]['input'])
     for (a, b), rate in ref['flows'].items():
         if b == nm:
-            e = e + Expr(rate) * _amt(a)
+            e = e + Expr(rate) * _ramt(ref, a)
         if a == nm:
-            e = e - Expr(rate) * _amt(nm)
+            e = e - Expr(rate) * _ramt(ref, nm)
     if nm in ref['outs']:
-        e = e - Expr(ref['outs'][nm]) * _amt(nm)
+        e = e - Expr(ref['outs'][nm]) * _ramt(ref, nm)
     return e
 
 
@@ -1025,8 +1047,8 @@ def _check_system(cs, ref, add, what=''):
           and M.rows == n and M.cols == n)
     if ok:
         for i, nm in enumerate(names):
-            if amounts[i] != _amt(nm) or u[i] != Expr(ref['comps'][nm]['input']) or \
-                    eqs[i].lhs != Expr.derivative(_amt(nm), t):
+            if amounts[i] != _ramt(ref, nm) or u[i] != Expr(ref['comps'][nm]['input']) or \
+                    eqs[i].lhs != Expr.derivative(_ramt(ref, nm), t):
                 ok = False
     if not ok:
         add(CS + '_order_compartments', CC_ORDER,
@@ -1058,7 +1080,7 @@ def _check_system(cs, ref, add, what=''):
         total = total + rhs
     bal = Expr.integer(0)
     for nm in names:
-        bal = bal - Expr(ref['outs'].get(nm, 0)) * _amt(nm) + Expr(ref['comps'][nm]['input'])
+        bal = bal - Expr(ref['outs'].get(nm, 0)) * _ramt(ref, nm) + Expr(ref['comps'][nm]['input'])
     if not _is_zero(total - bal):
         add(CS + 'eqs', CC_MASS, f'{what}sum of right hand sides {total.expand()} != {bal.expand()}')
 
@@ -1164,8 +1186,235 @@ def _compare_orders(cs, cs1, add, what):
         add(CS + 'eqs', CC_ERR, f'{what}accessor raised {_exc(e)}')
 
 
+# ---- systems with nonlinear rates, substitutions keyed by amount functions and compound expressions -------
+#
+# case = {..., 'style': s}: the same graph, but the k-th flow (flows in sorted order, then the output flows) has
+# the rate of style NL_STYLES[(k + s) % 5]:
+#   sat  VMij/(KMij + A_src(t))               saturable (Michaelis-Menten) in the amount of the source
+#   cmp  CLij/Vi                              compound expression of parameters
+#   inh  Kij*ICij/(ICij + A_other(t))         inhibited by another amount (the destination; for an output flow the
+#                                             compartment after the source)
+#   mix  CLij/Vi + VMij/(KMij + A_src(t))     linear plus saturable
+#   lin  Kij
+NL_STYLES = ('sat', 'cmp', 'inh', 'mix', 'lin')
+
+
+def _nl_rate(style, i, j, n):
+    """rate (Expr) of the flow NAMES[i] -> NAMES[j] (j None: output) in that style"""
+    Expr = _px()['Expr']
+    S = Expr.symbol
+    sfx = f'{i + 1}{0 if j is None else j + 1}'
+    src = _amt(NAMES[i])
+    other = _amt(NAMES[j if j is not None else (i + 1) % n])
+    if style == 'sat':
+        return S('VM' + sfx) / (S('KM' + sfx) + src)
+    if style == 'cmp':
+        return S('CL' + sfx) / S(f'V{i + 1}')
+    if style == 'inh':
+        return S('K' + sfx) * S('IC' + sfx) / (S('IC' + sfx) + other)
+    if style == 'mix':
+        return S('CL' + sfx) / S(f'V{i + 1}') + S('VM' + sfx) / (S('KM' + sfx) + src)
+    return S('K' + sfx)
+
+
+def _nl_ref(case):
+    """reference model of a case with nonlinear rates: like _cs_ref, rates are Expr; 'parts' lists the
+    non-symbol subexpressions the rates were put together from (candidate substitution keys)"""
+    n = case['n']
+    ref = _cs_ref(case)
+    edges = [(i, j) for i, j in sorted(tuple(e) for e in case['edges'])] + [(i, None) for i in sorted(case['outs'])]
+    parts = []
+    Expr = _px()['Expr']
+    S = Expr.symbol
+    for k, (i, j) in enumerate(edges):
+        style = NL_STYLES[(k + case['style']) % len(NL_STYLES)]
+        rate = _nl_rate(style, i, j, n)
+        sfx = f'{i + 1}{0 if j is None else j + 1}'
+        if j is None:
+            ref['outs'][NAMES[i]] = rate
+        else:
+            ref['flows'][(NAMES[i], NAMES[j])] = rate
+        if style in ('cmp', 'mix'):
+            parts.append((f'CL{sfx}/V{i + 1}', S('CL' + sfx) / S(f'V{i + 1}')))
+        if style in ('sat', 'mix'):
+            parts.append((f'VM{sfx}/(KM{sfx} + A_{NAMES[i]}(t))', S('VM' + sfx) / (S('KM' + sfx) + _amt(NAMES[i]))))
+        if style == 'inh':
+            other = NAMES[j if j is not None else (i + 1) % n]
+            parts.append((f'IC{sfx} + A_{other}(t)', S('IC' + sfx) + _amt(other)))
+    ref['parts'] = parts
+    return ref
+
+
+def _nl_maps(ref):
+    """the substitutions tried on one system: (label, mapping).  Keys are amount functions, compound
+    expressions and - as controls - symbols; Expr keys and str keys"""
+    Expr = _px()['Expr']
+    S = Expr.symbol
+    names = sorted(ref['comps'])
+    fn = lambda nm: Expr.function(f'A_{nm}', 't')  # noqa
+    maps = []
+    for nm in names:
+        maps.append((f'{{A_{nm}(t): A_{nm}X(t)}}', {fn(nm): fn(nm + 'X')}))
+    maps.append(('every amount function A_c(t) -> A_cX(t)', {fn(nm): fn(nm + 'X') for nm in names}))
+    maps.append((f"str keys {{'A_{names[-1]}(t)': 'A_{names[-1]}X(t)'}}", {f'A_{names[-1]}(t)': f'A_{names[-1]}X(t)'}))
+    for k, (text, part) in enumerate(ref['parts']):
+        maps.append((f'{{{text}: Q{k}}}', {part: S(f'Q{k}')}))
+    if ref['parts']:
+        maps.append(('every compound part -> Qk', {part: S(f'Q{k}') for k, (_, part) in enumerate(ref['parts'])}))
+        text = ref['parts'][0][0]
+        maps.append((f"str keys {{'{text}': 'Q0'}}", {text: 'Q0'}))
+    rates = [ref['flows'][k] for k in sorted(ref['flows'])] + [ref['outs'][k] for k in sorted(ref['outs'])]
+    if rates:
+        maps.append(('every whole rate -> Rk', {r: S(f'R{k}') for k, r in enumerate(rates)}))
+        m = {fn(names[0]): fn(names[0] + 'X'), S('AMT'): S('DOSE'), S('ALAG'): S('LAG9'), S('FBIO'): S('F9'),
+             S('R0'): S('RR') * S('WT')}
+        if ref['parts']:
+            m[ref['parts'][-1][1]] = S('QL')
+        maps.append((f'{{A_{names[0]}(t): A_{names[0]}X(t), AMT: DOSE, ALAG: LAG9, FBIO: F9, R0: RR*WT'
+                     + (f', {ref["parts"][-1][0]}: QL' if ref['parts'] else '') + '}', m))
+        syms = sorted({x for r in rates for x in r.free_symbols if str(x) != 't'}, key=str)
+        maps.append(('every rate symbol P -> P*WT (compound values)', {x: x * S('WT') for x in syms}))
+    return maps
+
+
+def _nl_subs_ref(ref, m):
+    """the reference model after substitution m: Expr.subs on every rate and every compartment attribute"""
+    Expr = _px()['Expr']
+    want = {'flows': {k: Expr(v).subs(m) for k, v in ref['flows'].items()},
+            'outs': {k: Expr(v).subs(m) for k, v in ref['outs'].items()},
+            'comps': {}, 'amounts': {}}
+    for nm, c in ref['comps'].items():
+        want['comps'][nm] = {'doses': tuple((d[0], str(Expr(d[1]).subs(m)), d[2]) for d in c['doses']),
+                             'input': str(Expr(c['input']).subs(m)), 'lag': str(Expr(c['lag']).subs(m)),
+                             'bio': str(Expr(c['bio']).subs(m))}
+        want['amounts'][nm] = _ramt(ref, nm).subs(m)
+    return want
+
+
+def _same_expr(a, b):
+    return a == b or _is_zero(a - b)
+
+
+def _nl_observe(cs, names):
+    """(flows, outs, comps, amounts, len) of a system through find_compartment / get_flow; rates are Expr"""
+    output = _px()['output']
+    comps = {nm: cs.find_compartment(nm) for nm in names}
+    flows, outs, cd, amounts = {}, {}, {}, {}
+    for nm, c in comps.items():
+        if c is None:
+            continue
+        cd[nm] = {'doses': tuple((type(d).__name__, str(d.amount), d.admid) for d in c.doses),
+                  'input': str(c.input), 'lag': str(c.lag_time), 'bio': str(c.bioavailability)}
+        amounts[nm] = c.amount
+        outs[nm] = cs.get_flow(c, output)
+        for nm2, c2 in comps.items():
+            if nm2 != nm and c2 is not None:
+                flows[(nm, nm2)] = cs.get_flow(c, c2)
+    return flows, outs, cd, amounts, len(cs)
+
+
+def _nl_flow_diff(obs, want, names):
+    """first pair whose observed rate differs from the reference rate (0 where no flow), or None"""
+    Expr = _px()['Expr']
+    flows, outs = obs[0], obs[1]
+    for a in names:
+        for b in names:
+            if a != b:
+                w = Expr(want['flows'].get((a, b), 0))
+                g = flows.get((a, b))
+                if g is None or not _same_expr(g, w):
+                    return f'get_flow({a}, {b}) = {g}, expected {w}'
+        w = Expr(want['outs'].get(a, 0))
+        g = outs.get(a)
+        if g is None or not _same_expr(g, w):
+            return f'get_flow({a}, output) = {g}, expected {w}'
+    return None
+
+
+def _nl_comp_diff(obs, want, names):
+    cd, amounts, ln = obs[2], obs[3], obs[4]
+    if sorted(cd) != sorted(want['comps']) or ln != len(want['comps']):
+        return f'compartments {sorted(cd)}, len {ln}; expected {sorted(want["comps"])}'
+    for nm in names:
+        if cd[nm] != want['comps'][nm]:
+            return f'{nm}: {cd[nm]}, expected {want["comps"][nm]}'
+        if amounts[nm] != _ramt(want, nm):
+            return f'{nm}: amount {amounts[nm]}, expected {_ramt(want, nm)}'
+    return None
+
+
+def _check_cs_nl_case(case):
+    """C05 on a system with nonlinear rates: what was built, consistency of matrix / amounts / equations,
+    serialisation, and every substitution of _nl_maps"""
+    px = _px()
+    CompartmentalSystem = px['CompartmentalSystem']
+    fails = {}
+
+    def add(fid, clause, detail):
+        if (fid, clause) not in fails:
+            fails[(fid, clause)] = detail
+
+    ref = _nl_ref(case)
+    names = sorted(ref['comps'])
+    try:
+        cs = _cs_build(ref, 0)
+        cs1 = _cs_build(ref, 1)
+    except Exception as e:
+        add(CB + 'add_flow', CC_BUILD, f'nonlinear rates: building raised {_exc(e)}')
+        return fails
+    plain = {'flows': ref['flows'], 'outs': ref['outs'], 'comps': ref['comps']}
+    for which, system, fid in (('order 0', cs, CB + 'add_flow'), ('order 1', cs1, CB + 'set_dose')):
+        obs = _nl_observe(system, names)
+        d = _nl_flow_diff(obs, plain, names) or _nl_comp_diff(obs, plain, names)
+        if d:
+            add(fid, CC_BUILD, f'nonlinear rates, {which}: {d}')
+    _check_system(cs, plain, add, 'nonlinear rates: ')
+    _compare_orders(cs, cs1, add, 'nonlinear rates: ')
+    try:
+        back = CompartmentalSystem.from_dict(cs.to_dict())
+        obs = _nl_observe(back, names)
+        d = _nl_flow_diff(obs, plain, names) or _nl_comp_diff(obs, plain, names)
+        if d:
+            add(CS + 'to_dict', CC_DICT, f'nonlinear rates: {d}')
+        elif tuple(back.eqs) != tuple(cs.eqs):
+            add(CS + 'to_dict', CC_DICT, f'nonlinear rates: eqs changed: {back.eqs} vs {cs.eqs}')
+        else:
+            try:
+                same = back == cs
+            except Exception as e:
+                same = True
+                add(CS + '__eq__', CC_EQ_ERR, f'nonlinear rates: from_dict(to_dict(cs)) == cs raised {_exc(e)}')
+            if not same:
+                add(CS + 'to_dict', CC_DICT, 'nonlinear rates: from_dict(to_dict(cs)) != cs')
+    except Exception as e:
+        add(CS + 'to_dict', CC_DICT, f'nonlinear rates: round trip raised {_exc(e)}')
+
+    for label, m in _nl_maps(ref):
+        want = _nl_subs_ref(plain, m)
+        try:
+            sub = cs.subs(m)
+            obs = _nl_observe(sub, names)
+        except Exception as e:
+            add(CS + 'subs', CC_SUBS_EXPR, f'subs({label}) raised {_exc(e)}')
+            continue
+        d = _nl_flow_diff(obs, want, names)
+        if d:
+            add(CS + 'subs', CC_SUBS_EXPR, f'subs({label}): {d}')
+        d = _nl_comp_diff(obs, want, names)
+        if d:
+            add(CS + 'subs', CC_SUBS_EXPR_COMP, f'subs({label}): {d}')
+        _check_system(sub, want, add, f'after subs({label}): ')
+    obs = _nl_observe(cs, names)
+    d = _nl_flow_diff(obs, plain, names) or _nl_comp_diff(obs, plain, names)
+    if d:
+        add(CS + 'subs', CC_IMMUT, f'nonlinear rates: subs changed the original system: {d}')
+    return fails
+
+
 def _check_cs_case(case, with_tocs=True):
     """all C05 clauses on one case; returns {(fid, clause): detail}"""
+    if case.get('style') is not None:
+        return _check_cs_nl_case(case)
     px = _px()
     Expr = px['Expr']
     CompartmentalSystem = px['CompartmentalSystem']
@@ -1330,8 +1579,9 @@ def _with_tocs(case):
 
 def _cs_worker(chunk):
     fails = {}
+    also = {}
     nontrivial = 0
-    for case, with_tocs in chunk:
+    for idx, case, with_tocs in chunk:
         if case['edges'] or case['outs']:
             nontrivial += 1
         res = _check_cs_case(case, with_tocs)
@@ -1339,7 +1589,30 @@ def _cs_worker(chunk):
             old = fails.get(key)
             if old is None or _cs_size(case) < _cs_size(old[1]):
                 fails[key] = (detail, case)
-    return len(chunk), nontrivial, fails
+            lst = also.setdefault(key, [])
+            if len(lst) < ALSO_CAP:
+                lst.append((idx, case))
+    return len(chunk), nontrivial, fails, also
+
+
+def _nl_cases(tier):
+    """cases with nonlinear rates (key 'style'): n<=2 every case in every style; n=3 every graph x outputs with a
+    rotating dose compartment, input and style (thorough: every style, input on none / the next compartment)"""
+    for n in (1, 2):
+        for c in _cs_cases(n):
+            for s in range(len(NL_STYLES)):
+                yield dict(c, style=s)
+    for c in _cs_cases(3, inputs_all=False):
+        k = len(c['edges']) + len(c['outs'])
+        if c['dose'] != k % 3:
+            continue
+        m = sum(1 << (3 * i + j) for i, j in c['edges']) + sum(1 << (9 + i) for i in c['outs'])
+        if tier == 'quick':
+            if (c['input'] is None) == (m % 2 == 0):
+                yield dict(c, style=m % len(NL_STYLES))
+        else:
+            for s in range(len(NL_STYLES)):
+                yield dict(c, style=s)
 
 
 def bounded_compartmental(tier):
@@ -1347,34 +1620,51 @@ def bounded_compartmental(tier):
     for n in (1, 2):
         cases += [(c, True) for c in _cs_cases(n)]
     cases += [(c, _with_tocs(c)) for c in _cs_cases(3, inputs_all=False)]
+    nl = [(c, False) for c in _nl_cases(tier)]
     bound = ('all directed graphs on <=3 compartments (CENTRAL, DEPOT, PERI) with distinct symbolic rates x every '
              'subset of output flows x Bolus dose (with lag time and bioavailability) on each compartment x zero-order '
              'input on none or one compartment (n<=2: any; n=3: the one after the dose compartment), each built in 2 '
              'insertion orders, plus every single builder operation; to_compartmental_system for every case with '
-             'n<=2 and once per (graph, outputs, input) with a rotating dose compartment for n=3')
+             'n<=2 and once per (graph, outputs, input) with a rotating dose compartment for n=3'
+             ' | nonlinear rates (saturable in the source amount, CL/V, inhibited by another amount, linear + '
+             'saturable, linear; every flow in every style for n<=2, one style per (graph, outputs) with rotating dose '
+             'and input for n=3): built in 2 insertion orders, matrix/amounts/eqs consistency, to_dict round trip, and '
+             'subs with every single amount function A_c(t) -> A_cX(t), all of them at once, every compound part of a '
+             'rate (CL/V, VM/(KM + A(t)), IC + A(t)) alone and all at once, every whole rate, str keys, a mixture with '
+             'the dose/lag/bioavailability/input symbols, and symbols replaced by products: flows equal '
+             'old.get_flow(a, b).subs(m), compartments substituted, matrix/amounts/eqs consistent afterwards')
     if tier != 'quick':
         cases += [(c, True) for c in _cs_cases(3) if not (c['input'] in (None, (c['dose'] + 1) % 3) and _with_tocs(c))]
         cases += [(c, False) for c in _cs_cases(4, inputs_all=False) if len(c['edges']) <= 4 and len(c['outs']) <= 1]
         bound += (' | thorough: n=3 with the input on any compartment and to_compartmental_system everywhere; '
                   '4 compartments (+X4) with <=4 flows, <=1 output flow, the input on none or on the compartment '
-                  'after the dose compartment, without to_compartmental_system')
-    chunks = [cases[i::NPROC * 8] for i in range(NPROC * 8)]
+                  'after the dose compartment, without to_compartmental_system; nonlinear rates: n=3 in every '
+                  'style, input on none or on the compartment after the dose compartment')
+    cases += nl
+    indexed = [(i, c, w) for i, (c, w) in enumerate(cases)]
+    chunks = [indexed[i::NPROC * 8] for i in range(NPROC * 8)]
     chunks = [c for c in chunks if c]
     results = _run_pool(_cs_worker, chunks)
     total = nontrivial = 0
     fails = {}
-    for c, nt, fl in results:
+    also = {}
+    for c, nt, fl, al in results:
         total += c
         nontrivial += nt
         for key, (detail, case) in fl.items():
             old = fails.get(key)
             if old is None or _cs_size(case) < _cs_size(old[1]):
                 fails[key] = (detail, case)
+        for key, lst in al.items():
+            also.setdefault(key, []).extend(lst)
     out_fails = []
     for (fid, clause), (detail, case) in sorted(fails.items()):
         out_fails.append({'fid': fid, 'clause': clause, 'detail': f'{detail}   [case: {case}]',
                           'case': dict(case, fid=fid, clause=clause),
-                          'replay_fn': 'bounded_compartmental_replay'})
+                          'replay_fn': 'bounded_compartmental_replay',
+                          # every failing case of the clause in enumeration order (tools/BOUNDED_GUIDE.md, `also`)
+                          'also': [dict(c, fid=fid, clause=clause)
+                                   for _, c in sorted(also.get((fid, clause), []), key=lambda p: p[0])[:ALSO_CAP]]})
     samples = [repr(cases[i][0]) for i in (5, len(cases) // 2, len(cases) - 1)]
     return {'cases': total, 'nontrivial': nontrivial, 'bound': bound, 'samples': samples, 'fails': out_fails}
 
